@@ -106,6 +106,36 @@ func (ex *Exec) jsonUnmarshal(data *Term, target Value) Value {
 		ex.decodeCarrier(data, doc, p, pt.Elem(), true)
 		return Iface{}
 	}
+	if it, isI := pt.Elem().Underlying().(*types.Interface); isI && it.NumMethods() == 0 && data.IsLit() {
+		// a concrete document decoded into `any`: decided exactly by the host library
+		var probe interface{}
+		if err := json.Unmarshal([]byte(data.S), &probe); err != nil {
+			return ex.jsonError("Syntax")
+		}
+		k := ex.counters["jsonlit"]
+		ex.counters["jsonlit"]++
+		*p.slot() = ex.hostToAnyJSON(probe, fmt.Sprintf("jsonlit%d", k), 0)
+		return Iface{}
+	}
+	if aj, ok := ex.docAny(data); ok {
+		// a document built by verifnd.JSONDoc: well-formed, structure known
+		if it, isI := pt.Elem().Underlying().(*types.Interface); isI && it.NumMethods() == 0 {
+			*p.slot() = aj
+			return Iface{}
+		}
+		if b, isB := pt.Elem().Underlying().(*types.Basic); isB && b.Info()&types.IsString != 0 {
+			// encoding/json: only a JSON string (or null, which leaves the target) decodes into a Go string
+			if ex.Branch(Eq(aj.Tag, IntLit(3))) {
+				*p.slot() = aj.S
+				return Iface{}
+			}
+			if ex.Branch(Eq(aj.Tag, IntLit(0))) {
+				return Iface{}
+			}
+			return ex.jsonError("UnmarshalType")
+		}
+		panic(engineErr("json.Unmarshal of a verifnd.JSONDoc into %s is not modelled", pt.Elem()))
+	}
 	if data.IsLit() {
 		// a concrete document: syntax and top-level kind are decided exactly
 		var probe interface{}
@@ -330,6 +360,29 @@ func (ex *Exec) arbitrary(t types.Type, tag string, depth int, shape bool) Value
 	return zeroValue(t)
 }
 
+// hostToAnyJSON: a concrete decoded JSON value.
+func (ex *Exec) hostToAnyJSON(v interface{}, name string, depth int) AnyJSON {
+	aj := AnyJSON{Name: name, Depth: depth, Tag: IntLit(0), B: tFalse, F: FloatLit(0), S: StrLit("")}
+	switch x := v.(type) {
+	case bool:
+		aj.Tag, aj.B = IntLit(1), BoolLit(x)
+	case float64:
+		aj.Tag, aj.F = IntLit(2), FloatLit(x)
+	case string:
+		aj.Tag, aj.S = IntLit(3), StrLit(x)
+	case []interface{}:
+		aj.Tag = IntLit(4)
+		arr := &ArrayV{Elems: make([]Value, len(x))}
+		for k, e := range x {
+			arr.Elems[k] = ex.hostToAnyJSON(e, fmt.Sprintf("%s.%d", name, k), depth+1)
+		}
+		ex.memo["anyjson.arr:"+name] = SliceV{Arr: ex.newObj(arr, nil), Len: len(x), Cap: len(x)}
+	case map[string]interface{}:
+		aj.Tag = IntLit(5)
+	}
+	return aj
+}
+
 func (ex *Exec) newAnyJSON(tag string, depth int) AnyJSON {
 	tg := ex.fresh(tag+".tag", SInt, "env")
 	ex.assume(And(Ge(tg, IntLit(0)), Le(tg, IntLit(5))))
@@ -385,13 +438,22 @@ func (ex *Exec) typeAssertJSON(aj AnyJSON, i *ssa.TypeAssert) Value {
 		case 3:
 			val = aj.S
 		case 4:
+			if prev, ok := ex.memo["anyjson.arr:"+aj.Name]; ok {
+				val = prev // the same decoded value asserted again: the same elements
+				break
+			}
 			n := ex.Choose(ex.run.cfg.MaxJSONSlice + 1)
 			ex.choices = append(ex.choices, ChoiceRec{Tag: aj.Name + ".len", V: n})
 			arr := &ArrayV{Elems: make([]Value, n)}
 			for k := range arr.Elems {
-				arr.Elems[k] = ex.newAnyJSON(fmt.Sprintf("%s.%d", aj.Name, k), aj.Depth+1)
+				if aj.F != nil && aj.F.Op == "to_fp_int" {
+					arr.Elems[k] = ex.newDocAny(fmt.Sprintf("%s.%d", aj.Name, k), aj.Depth+1)
+				} else {
+					arr.Elems[k] = ex.newAnyJSON(fmt.Sprintf("%s.%d", aj.Name, k), aj.Depth+1)
+				}
 			}
 			val = SliceV{Arr: ex.newObj(arr, nil), Len: n, Cap: n}
+			ex.memo["anyjson.arr:"+aj.Name] = val
 		case 5:
 			ex.nextID++
 			val = &MapV{ID: ex.nextID}
